@@ -326,3 +326,60 @@ func genGotoInvalid(thorough bool) Gen {
 		})
 	}
 }
+
+// F-constobj — stores through a constant or parenthesised non-table prefix: they must raise, and no
+// local of the function may change (the prefix of a store is a register operand, never a constant).
+func genConstObj(thorough bool) Gen {
+	prefixes := []struct {
+		name string
+		mk   func() Expr
+	}{
+		{`("abc")`, func() Expr { return Paren(Str("abc")) }}, {`(5)`, func() Expr { return Paren(Num(5)) }}, {`(nil)`, func() Expr { return Paren(Nil()) }},
+		{`(true)`, func() Expr { return Paren(True()) }}, {`(2 + 3)`, func() Expr { return Paren(Bin("+", Num(2), Num(3))) }}, {`("a" .. "b")`, func() Expr { return Paren(Bin("..", Str("a"), Str("b"))) }},
+		{`(#"xyz")`, func() Expr { return Paren(Un("#", Str("xyz"))) }},
+	}
+	keys := []struct {
+		name string
+		mk   func(p Expr) Expr
+	}{
+		{".y", func(p Expr) Expr { return Dot(p, "y") }}, {"[1]", func(p Expr) Expr { return Index(p, Num(1)) }}, {"[k]", func(p Expr) Expr { return Index(p, Name("k")) }},
+	}
+	return func(yield func(*Prog)) {
+		for _, pf := range prefixes {
+			for _, ky := range keys {
+				for nloc := 0; nloc <= 3; nloc++ {
+					for _, form := range []string{"single", "multi", "read"} {
+						pf, ky, nloc, form := pf, ky, nloc, form
+						yield(&Prog{Family: "F-constobj", Shape: fmt.Sprintf("%s%s/locals=%d/%s", pf.name, ky.name, nloc, form), Mk: func() *Block {
+							// tables live at chunk level; the failing function holds them in its own locals
+							var body, ibody []Stat
+							var obs []Expr
+							for i := 0; i < 3; i++ {
+								n := fmt.Sprintf("U%d", i)
+								body = append(body, Local1(n, TableE()))
+								obs = append(obs, Dot(Name(n), "y"), Index(Name(n), Num(1)))
+							}
+							for i := 0; i < nloc; i++ {
+								ibody = append(ibody, Local1(fmt.Sprintf("u%d", i), Name(fmt.Sprintf("U%d", i))))
+							}
+							ibody = append(ibody, Local1("k", Num(1)))
+							var st Stat
+							switch form {
+							case "single":
+								st = Assign1(ky.mk(pf.mk()), Str("stored"))
+							case "multi":
+								st = Assign([]Expr{ky.mk(pf.mk()), Name("k")}, Str("stored"), Num(1))
+							case "read":
+								st = Local1("r", ky.mk(pf.mk()))
+							}
+							ibody = append(ibody, st, Return(Str("no-error")))
+							body = append(body, Emit(Str("r"), Paren(CallN("pcall", Func(nil, false, ibody...)))))
+							body = append(body, Emit(append([]Expr{Str("locals")}, obs...)...))
+							return Blk(body...)
+						}})
+					}
+				}
+			}
+		}
+	}
+}
